@@ -416,7 +416,33 @@ func dischargeSet(obls []*Obligation, o *options) float64 {
 				case "unsat":
 					ob.Status = "cover-failed"
 				default:
+					// quantified assumptions make the solvers answer unknown for satisfiable queries: decide the
+					// quantifier-free part instead (drops assumptions, so unsat is still a certain contradiction;
+					// sat means no contradiction among the quantifier-free facts)
 					ob.Status = "cover-unknown"
+					ex := map[int]bool{}
+					for k, v := range ob.excluded {
+						ex[k] = v
+					}
+					for i, a := range ob.Script.Asserts {
+						if strings.Contains(a, "(forall ") || strings.Contains(a, "(exists ") {
+							ex[i] = true
+						}
+					}
+					if !strings.Contains(ob.Goal.S, "(forall ") && !strings.Contains(ob.Goal.S, "(exists ") {
+						q2 := ob.Script.QueryExcluding(ob.Goal, false, ob.cutDecls, ob.cutAsserts, ex)
+						r2, _ := Solve(q2, "quick", to, ob.Name+".qf")
+						switch r2.Answer {
+						case "sat":
+							ob.Status = "cover-ok"
+							r2.Solver += "+qf-part"
+							ob.Result = r2
+						case "unsat":
+							ob.Status = "cover-failed"
+							r2.Solver += "+qf-part"
+							ob.Result = r2
+						}
+					}
 				}
 				return
 			}
@@ -719,7 +745,7 @@ func writeEvidence(p *Prog, cr *checkResult, o *options, wall float64, nObl, nDi
 		"discharged_by_backend":        byBackend,
 		"solver_seconds_total":         round3(solverTime),
 		"slowest_obligation":           map[string]any{"name": slowest, "seconds": round3(maxTime)},
-		"cover_guards":                 map[string]any{"total": nCover, "satisfiable": nCoverOK, "inconclusive": nCover - nCoverOK, "note": "a guard answered unsat is a violation (vacuity); unknown/timeout under quantified assumptions is inconclusive and only reported"},
+		"cover_guards":                 map[string]any{"total": nCover, "satisfiable": nCoverOK, "inconclusive": nCover - nCoverOK, "note": "a guard answered unsat is a violation (vacuity); when quantified assumptions make the full query unknown, the guard is decided on the quantifier-free part of the assumptions (unsat there is still a certain contradiction; sat there is reported as satisfiable with backend suffix +qf-part)"},
 		"abstracted":                   sortedKeys(cr.abstracted),
 		"contracts_used_at_call_sites": sortedKeys(cr.contractsUsed),
 		"contract_files":               p.cs.Files,
